@@ -6,8 +6,11 @@ Scope of the claim (level `other`):
   * native, bounded: copies into the own parent and into another model of the same version, duplicate() and the independence of
     original and duplicate, on every element type of the specification (api copycheck).
   Naming / index registration of the copy (create_copied_sub_element_inner, make_unique_item_name), duplicate() itself and the
-  independence of the two object graphs are element-graph code: only run, bounded.  That a copy into another version "still validates"
-  is exercised by the editing scripts of C07 (cross-version step) and subject to the finding recorded there.
+  independence of the two object graphs are element-graph code: only run, bounded.
+  * native, bounded and directed: "a copy into an older or newer version omits exactly the parts not permitted there and still
+    validates" on every attribute / enumeration value / sub-element of the specification that exists in some versions only
+    (api copycross), and on the random scripts of api copycheck (cross-version step).  Histories in which the copied element's name
+    resolves to another element type in the destination version are attributed to the recorded finding (same defect as under C07).
 """
 from vxlib.common import Obligation, run, result_line
 from vxlib.rustsrc import Lost
@@ -30,7 +33,7 @@ def check(ctx):
     last = lines[-1] if lines else ''
     name = 'native/api-copy-and-duplicate'
     bound = ('an element of every element type reached breadth-first from ElementType::ROOT (budget %d scripts, up to 21 versions per type), built through the editing API with 2-6 children, values and attributes; '
-             'copied into its own parent and into a fresh model of the same version; the model duplicated (also with a second file of another version); one change on either side' % budget)
+             'copied into its own parent, into a fresh model of the same version and (every second script) into a fresh model of another version, aimed half of the time at a version the source file is not compatible with; the model duplicated (also with a second file of another version); one change on either side' % budget)
     fails = [l for l in lines if l.startswith('FAIL')]
     if not (last.startswith('OK') or last.startswith('SURVEY')):
         ctx.undecided.append('%s: no result (rc=%s) %s' % (name, rc, (out + err)[-300:]))
@@ -45,8 +48,31 @@ def check(ctx):
         if not fails or all(o.detail.startswith('KNOWN FINDING') for o in ctx.obligations if o.name.startswith(name + '#')):
             ctx.add(Obligation(ctx.prop, name, 'native-eval', 'bounded', 'discharged', seconds=secs, bound=bound,
                                detail=('' if not fails else '(except the histories attributed to recorded findings) ') + 'a copy into a destination of the same version has the text of the source apart from the numeric suffix of its own item name; the source is unchanged; every identifiable element of the copy is found under its path; removing the copy restores the file text; every file of a duplicated model serializes to the original text; a change on one side is not visible on the other [%s]' % last))
+    # directed cross-version cases: every attribute, enumeration value and sub-element that exists in some versions only
+    rc, out, err, secs = run([b, 'api', 'copycross', '1000000', 'survey'], timeout=3000)
+    ctx.t('native-enum', secs)
+    lines = out.strip().splitlines()
+    last = lines[-1] if lines else ''
+    name = 'native/api-copy-cross-version'
+    bound = ('every element type reached breadth-first from ElementType::ROOT; per type every attribute that exists in some versions only, up to 4 enumeration values per attribute (2 per element text) that exist in some versions only, '
+             'up to 3 sub-elements whose name the type lists in some versions only; source version: first and last (attribute values) or one (others) that has the part, destination: up to 3 versions that do not; '
+             'the element carries only that part (and a SHORT-NAME / reference text where needed)')
+    fails = [l for l in lines if l.startswith('FAIL')]
+    if not (last.startswith('OK') or last.startswith('SURVEY')):
+        ctx.undecided.append('%s: no result (rc=%s) %s' % (name, rc, (out + err)[-300:]))
+    else:
+        for k, l in enumerate(fails[:12]):
+            msg = l[5:]
+            m = re.search(r'replay: api copycross1 (\d+) (\S+) (\S+) (\S+) (\S+)\]', msg)
+            ob = ctx.add(Obligation(ctx.prop, '%s#%d' % (name, k), 'native-eval', 'bounded', 'failed', seconds=secs, bound=bound, detail=msg[:1200]))
+            ob.witness = dict(history=msg[:1200], observed=msg.split(' :: ')[0][:500], via='public API: Element::create_copied_sub_element between files of two versions, ArxmlFile::serialize, AutosarModel::load_buffer, ArxmlFile::check_version_compatibility',
+                              replay=['api', 'copycross1'] + list(m.groups()) if m else None)
+            ctx._record_violation(ob)
+        if not fails or all(o.detail.startswith('KNOWN FINDING') for o in ctx.obligations if o.name.startswith(name + '#')):
+            ctx.add(Obligation(ctx.prop, name, 'native-eval', 'bounded', 'discharged', seconds=secs, bound=bound,
+                               detail=('' if not fails else '(except the histories attributed to recorded findings) ') + 'an element that carries one part the destination version does not permit is copied into a file of that version: the copy is refused only when the part is required (a required attribute); otherwise the destination file loads again without a complaint, a required attribute is still there, the source file is unchanged, and -- whenever the same element without that part is compatible with the destination version -- the text of the copy equals the text of the element without the part: exactly that part was omitted [%s]' % last))
     return ctx.finish(
         explanation='Verus proves on the real text of ElementRaw::deep_copy, for every node, version and any table contents, that the result is exactly copy_tree(node, version): attributes are kept iff listed for the type, available in the target version and valid there (a required one that cannot be kept, or one the type does not list, fails the copy of that element); texts are kept, a text not valid for the type\'s spec in the target version fails the copy; a sub-element is kept iff the type lists its name for the target version and its own copy succeeds; an element that must be identifiable in the target version but whose copy does not start with a SHORT-NAME fails. lemma_copy_faithful: if everything below the source is permitted in the version, copy_tree is the identity -- the copy is identical to the source. The node is read as in unit insertrange (the fields deep_copy reads; children are opaque handles; the new element is built as a value and wrapped at the end). Unique naming, index registration, parent links, duplicate() and the independence of the two graphs are only run through the public API (bounded).',
-        checker_cmd='verus generated/deepcopy.rs; vxnative ground lib tables_wf; vxnative api copycheck <budget> <seed> survey',
+        checker_cmd='verus generated/deepcopy.rs; vxnative ground lib tables_wf; vxnative api copycheck <budget> <seed> survey; vxnative api copycross 1000000 survey',
         trusted_base=['Verus 0.2026.09.13 + Z3', 'the reading of the node and of handles (node_of / tree_of uninterpreted; wrap = the value that was built); tree well-founded (C03); every node below has a type inside the tables',
                       'CharacterData::check_version_compatibility: clause of the contract proved in unit chardata; lookups: contracts proved in unit lookups'])
